@@ -317,17 +317,50 @@ def c_fmt(fmt: int) -> str:
 
 
 def c_kstore(raw) -> tuple[str, bool]:
-    """(kstore term, lossy) -- lossy: some float of some document is not a multiple of 2^-10 (rounded in the term)"""
+    """(kstore term, lossy) -- lossy: some float of some document is not a multiple of 2^-10 (rounded in the term).
+    Sub-documents that occur several times in the dump (group documents, codec lists, ...) are bound once with `let` (smaller terms)."""
     lossy: list = []
+    count: dict = {}
+
+    def walk(v):
+        if isinstance(v, (dict, list)):
+            k = json.dumps(v, sort_keys=False)
+            count[k] = count.get(k, 0) + 1
+            if count[k] == 1:
+                for x in (v.values() if isinstance(v, dict) else v):
+                    walk(x)
+
+    for _, (kind, v) in raw["items"]:
+        if kind == "doc":
+            walk(v)
+    names: dict = {}
+    lets: list = []
+
+    def term(v) -> str:
+        if isinstance(v, (dict, list)):
+            k = json.dumps(v, sort_keys=False)
+            if k in names:
+                return names[k]
+            if isinstance(v, list):
+                t = f"(JList {clist(v, term)})"
+            else:
+                t = "(JObj " + clist(list(v.items()), lambda kv: f"({kstr(str(kv[0]))}, {term(kv[1])})") + ")"
+            if count.get(k, 0) >= 2 and len(t) > 24:
+                nm = f"j{len(names)}"
+                names[k] = nm
+                lets.append(f"let {nm} := {t} in ")
+                return nm
+            return t
+        return jv(v, lossy)
 
     def one(it):
         comps, (kind, v) = it
         key = clist(comps, kstr)
         if kind == "doc":
-            return f"({key}, KDoc {jv(v, lossy)})"
+            return f"({key}, KDoc {term(v)})"
         return f"({key}, KChunk {clist(v, cz)})"
-    term = clist(raw["items"], one)
-    return term, bool(lossy)
+    body = clist(raw["items"], one)
+    return "(" + "".join(lets) + body + ")", bool(lossy)
 
 
 def geff_version_term(raw) -> str:
